@@ -17,8 +17,8 @@ def cmd_of(k) -> int:
     return k[3] if len(k) > 3 else 1
 
 
-def msg_of(k, val) -> Message:
-    return Message(k[0], k[1], cmd_of(k), 0, k[2], val)
+def msg_of(k, val, ack: int = 0) -> Message:
+    return Message(k[0], k[1], cmd_of(k), ack, k[2], val)
 
 
 def key_of(k) -> tuple:
@@ -85,7 +85,8 @@ class Scenario:
             self.sent.setdefault(key_of(k), []).append(val)  # send order = order in which send calls start
             if self.t.pending_writes:
                 self.nontrivial = True  # a send runs while a flush write is in flight
-            await self.gw.send(msg_of(k, val))
+            acks = self.cfg.get("sender_acks")
+            await self.gw.send(msg_of(k, val, acks[i] if acks else 0))
 
     # -- environment ----------------------------------------------------------
     def enabled(self) -> list:
@@ -192,6 +193,13 @@ def configs(ctx: core.Ctx) -> list:
         {"parked": [A, B, C], "senders": [[A, B], [C, E]]},
         {"parked": [I, A], "senders": [[I], [A]]},
         {"parked": [A, I, J], "senders": [[J, I]]},
+        # one value replaced again and again, each time while the previous one is being written
+        {"parked": [A], "senders": [[A], [A], [A]]},
+        {"parked": [A], "senders": [[A], [A], [A], [A]]},
+        # the application asks for an acknowledgement with some of its commands (ack flag set)
+        {"parked": [A], "senders": [[A], [A]], "sender_acks": [1, 0]},
+        {"parked": [A, B], "senders": [[A, B], [A]], "sender_acks": [1, 0]},
+        {"parked": [], "senders": [[A], [A], [A]], "sender_acks": [0, 1, 0]},
         # an echo (ack flag set) of an earlier command for key A arrives after the wake
         {"parked": [A], "senders": [[A]], "echoes": ["p0"]},
         {"parked": [A, B], "senders": [[A], [B]], "echoes": ["s00", "p0"]},
